@@ -27,6 +27,10 @@ package main
 //	                observation (repeat of the operation with fresh copies, Equal against a pristine
 //	                twin, accessor values, serialization, behaviour of primitives built before / after)
 //	                changed
+//	                changed; or (detail `<input>:reuse-differs…`, the same-buffer reuse observation) the operation
+//	                was called again with THE SAME slice after its contents had been overwritten in place with
+//	                different bytes of the same length, and the result differs from that of a call with a
+//	                freshly allocated copy of those bytes (a cache keyed by an alias of the caller's buffer)
 //	aliased-result  a returned slice shares memory with an input or with another returned slice, or a
 //	                value returned earlier changed when a later call was made
 //	aliased-internal every byte (through cap) of every returned slice was overwritten; an
@@ -229,6 +233,8 @@ type spec struct {
 	rndIn map[int]bool
 	mk    func() (*inst, error)
 	lays  []layout // nil = layouts()
+	// noReuse: skip the same-buffer reuse observation (primitives whose single call takes about a second)
+	noReuse bool
 }
 
 type engine struct {
@@ -490,6 +496,10 @@ func (e *engine) runLayout(s spec, l layout, baseOuts [][]byte, baseRes, baseObs
 				}
 			}
 		}
+		// 4. same-buffer reuse
+		if !s.noReuse && reuseWanted(s, l) {
+			e.reuse(s, it, guards, &fs)
+		}
 	})
 	if pan != "" {
 		e.o.Violate("%s %s: panic: %s", s.api, l.name, pan)
@@ -513,6 +523,176 @@ func (e *engine) runLayout(s spec, l layout, baseOuts [][]byte, baseRes, baseObs
 		e.dirty[s.api+" "+fs[0].kind]++
 		e.o.Count("dirty:" + fs[0].kind)
 	}
+}
+
+// reuseWanted: constructors (`once`) need three fresh instances and two observations per input: first layout only
+// in the quick tier.
+func reuseWanted(s spec, l layout) bool {
+	if s.once && !hlib.Thorough() {
+		lays := s.lays
+		if lays == nil {
+			lays = layouts()
+		}
+		return l.name == lays[0].name
+	}
+	return true
+}
+
+// reuse is the fourth observation: a caller that REUSES its buffer. For every input i (not an output buffer, not
+// empty): the operation is called with the guard slice holding the original contents (this is the call after which
+// a library that keeps an alias of the slice as a cache key would hold one), the slice's bytes are then overwritten
+// IN PLACE with different contents of the same length and the operation is called again with THE SAME slice. The
+// reference is the call with a FRESHLY ALLOCATED copy of the new contents, made BEFORE the aliasing call (afterwards
+// a cache that compares its aliased key with the argument would find the fresh copy "equal" to the overwritten
+// buffer as well): on the same object, and for deterministic operations also on a freshly constructed object after
+// the same-slice call. Verdict and (deterministic) outputs must agree; randomized encryptions / signatures are
+// compared through the verdict string of their call, which says whether the output opens / verifies under the
+// inputs that were passed and under the original inputs. Constructors (`once`) use fresh instances for each of the
+// three calls and additionally compare the observations of the constructed objects.
+func (e *engine) reuse(s spec, it *inst, guards []*guard, fs *[]finding) {
+	add := func(kind, format string, a ...any) {
+		*fs = append(*fs, finding{kind, fmt.Sprintf(format, a...)})
+	}
+	// the buffers hold scribbled contents by now: put the original bytes back (in place)
+	for _, g := range guards {
+		copy(g.buf[g.off:g.off+g.n], g.orig)
+		g.saved = bytes.Clone(g.buf)
+	}
+	args := func(sub int, z []byte, allFresh bool) [][]byte {
+		r := make([][]byte, len(guards))
+		for j, g := range guards {
+			switch {
+			case j == sub:
+				r[j] = bytes.Clone(z)
+			case allFresh && !s.outputBuf[j]:
+				r[j] = bytes.Clone(g.orig)
+			default:
+				r[j] = g.in()
+			}
+		}
+		return r
+	}
+	call := func(x *inst, ins [][]byte) (outs [][]byte, res string) {
+		if pan := hlib.Recover(func() { outs, res = x.call(ins) }); pan != "" {
+			return nil, "panic:" + short(pan)
+		}
+		return cloneAll(outs), res
+	}
+	obsOf := func(x *inst) (o string) {
+		if x.observe == nil {
+			return ""
+		}
+		if pan := hlib.Recover(func() { o = x.observe() }); pan != "" {
+			return "panic:" + short(pan)
+		}
+		return o
+	}
+	newInst := func() *inst {
+		if !s.once {
+			return it
+		}
+		x, err := s.mk()
+		if err != nil {
+			return nil
+		}
+		return x
+	}
+	cmp := func(g *guard, what string, resR, resS string, outsR, outsS [][]byte) bool {
+		if resR != resS {
+			add("retained", "%s:reuse-differs%s:fresh-copy=%s,same-slice=%s", g.name, what, short(resR), short(resS))
+			return false
+		}
+		if s.det && len(outsR) == len(outsS) {
+			for k := range outsR {
+				if !bytes.Equal(outsR[k], outsS[k]) {
+					add("retained", "%s:reuse-differs%s:out%d", g.name, what, k)
+					return false
+				}
+			}
+		}
+		return true
+	}
+	for i, g := range guards {
+		if s.outputBuf[i] || g.n == 0 {
+			continue
+		}
+		z := make([]byte, g.n)
+		for j := range z {
+			z[j] = g.orig[j] + 0xA7
+		}
+		xr, xp, xs := newInst(), newInst(), newInst()
+		if xr == nil || xp == nil || xs == nil {
+			return
+		}
+		e.o.Count("reuse:inputs")
+		// reference: a freshly allocated copy of the new contents
+		outsR, resR := call(xr, args(i, z, false))
+		// the observation of an object built from OTHER contents than the pristine partner's need not be independent of
+		// randomness (an unauthenticated cipher "decrypts" under the wrong key to bytes that depend on the random IV):
+		// it is taken twice and only the components that are stable take part in the comparison
+		obsR, obsR2 := "", ""
+		if s.once {
+			obsR, obsR2 = obsOf(xr), obsOf(xr)
+		}
+		// the call after which an alias of the caller's slice may be held
+		call(xp, args(-1, nil, false))
+		// the caller reuses its buffer
+		copy(g.buf[g.off:g.off+g.n], z)
+		g.saved = bytes.Clone(g.buf)
+		outsS, resS := call(xs, args(-1, nil, false))
+		for j, h := range guards {
+			if s.outputBuf[j] {
+				copy(h.saved[h.off:h.off+h.n], h.buf[h.off:h.off+h.n])
+			}
+			h.check(fs)
+			h.saved = bytes.Clone(h.buf)
+		}
+		ok := cmp(g, "", resR, resS, outsR, outsS)
+		if ok && s.once {
+			if d := stableDiff(obsR, obsR2, obsOf(xs)); d != "" {
+				add("retained", "%s:reuse-differs:object-built-from-the-same-slice:%s", g.name, d)
+				ok = false
+			}
+		}
+		if ok && s.det && !s.once {
+			// a freshly constructed object, freshly allocated inputs
+			if xn, err := s.mk(); err == nil {
+				outsN, resN := call(xn, args(i, z, true))
+				ok = cmp(g, "-from-a-fresh-object", resN, resS, outsN, outsS)
+			}
+		}
+		if !ok {
+			e.o.Count("reuse:differs")
+		}
+		copy(g.buf[g.off:g.off+g.n], g.orig)
+		g.saved = bytes.Clone(g.buf)
+	}
+}
+
+// stableDiff compares the observation s with the reference observation r1 on the '|'-separated components on which
+// the two reference observations r1 and r2 agree; "" = no difference.
+func stableDiff(r1, r2, s string) string {
+	a, b, c := strings.Split(r1, "|"), strings.Split(r2, "|"), strings.Split(s, "|")
+	if len(a) != len(b) || len(a) != len(c) {
+		if len(a) == len(b) {
+			return "changed:number-of-components"
+		}
+		return ""
+	}
+	var names []string
+	for i := range a {
+		if a[i] == b[i] && a[i] != c[i] && len(names) < 3 {
+			n := a[i]
+			if k := strings.IndexByte(n, '='); k >= 0 {
+				n = n[:k]
+			}
+			names = append(names, n)
+		}
+	}
+	if len(names) == 0 {
+		return ""
+	}
+	return "changed:" + strings.Join(names, "+")
 }
 
 // outOfScope names the api tokens whose findings are not violations of C19 as stated ("caller-provided byte
